@@ -1840,6 +1840,16 @@ class Interp:
         if type(base).__name__ == 'SymList':
             from . import heap as H
             return H.lst_index(self, base, idx)
+        if type(base).__name__ == 'ListView' and not base.enum:
+            # indexing a (possibly reversed) read-only view: Python index semantics over its count()
+            from . import heap as H
+            n = base.count()
+            t = H.to_int(idx)
+            inb = z3.And(t < n, t >= -n)
+            j = z3.If(t < 0, n + t, t)
+            if not self.spec and not self.p.choose(inb):
+                raise PyRaise(ExcVal(IndexError))
+            return base.base.at(z3.simplify(base.pos(j)))
         if type(base).__name__ == 'SymObj' and getattr(base.schema, 'tuple_fields', None) and isinstance(idx, int):
             from . import heap as H
             tf = base.schema.tuple_fields
